@@ -397,6 +397,15 @@ void WorldQ::on_send_event(const Event &e) {
           if (!r) { if (enabled("c03")) violate("C03.mark-at-wrong-offset", m->id + " " + e.path + " offset " + std::to_string(e.off)); break; }
           bool dying = m->birth + lifetime < r->last_cmd_t + 1 || m->birth + lifetime < k->clock;
           if (r->last_verdict != 'K' && r->last_verdict != 'D' && (r->maybe_verdict == 'K' || r->maybe_verdict == 'D' || (r->maybe_verdict == 'Z' && dying))) { r->last_verdict = r->maybe_verdict; if (r->maybe_verdict == 'K') r->k_reports++; }
+          // The daemon may already have allocated a delivery number to this recipient (command buffered, not yet written) when a
+          // hostile peer's record with that number arrived: from the daemon's side that IS this recipient's report. The ghost has
+          // not seen the command leave, so it cannot know the number; any unmatched record on this channel with a final verdict may be it.
+          if (r->last_verdict != 'K' && r->last_verdict != 'D' && r->outstanding < 0 && !(r->last_verdict == 'Z' && dying)) {
+            for (auto fl = floating[ch].begin(); fl != floating[ch].end(); ++fl) { char v = fl->second.empty() ? '?' : fl->second[0];
+              if (v == 'K' || v == 'D' || (v == 'Z' && dying)) { r->last_verdict = v; r->fail_text = fl->second.size() > 1 ? fl->second.substr(1) : ""; if (v == 'K') r->k_reports++; floating[ch].erase(fl); k->probe("report_matched_to_buffered_command");
+                if (v != 'K') { Inode *bf = k->lookup(qp("bounce", n, false)); std::string a = strip_prepend(r->addr); for (auto &c : a) if (c == '\n') c = '_'; if (bf && bf->data.find("<" + a + ">:\n") != std::string::npos) { r->noted = true; r->note_seq = ++note_counter; } }
+                break; } }
+          }
           if (enabled("c03")) {
             if (r->last_verdict == 'K' || r->last_verdict == 'D') {}
             else if (r->last_verdict == 'Z' && dying) {}
@@ -462,7 +471,7 @@ void WorldQ::on_send_event(const Event &e) {
         bool ok = discard || (bounce_child_seen && bounce_child_status == 0);
         if (!ok && enabled("c14")) violate("C14.bounce-record-dropped", "bounce/" + std::to_string(n) + " unlinked although no bounce was successfully queued");
         if (!ok && enabled("c03")) violate("C03.bounce-record-dropped", "bounce/" + std::to_string(n) + " unlinked without a successfully queued bounce (child status " + std::to_string(bounce_child_status) + ")");
-        if (ok && !discard && enabled("c03")) for (auto &r : m->rc) if (r.noted && !r.named) { violate("C03.bounce-omits-recipient", "bounce/" + std::to_string(n) + " is removed after a bounce was queued, but that bounce does not name recipient " + printable(r.addr) + " with its failure text \"" + printable(r.fail_text, 80) + "\""); break; }
+        if (ok && !discard && (enabled("c03") || enabled("c14"))) for (auto &r : m->rc) if (r.noted && !r.named) { violate(enabled("c03") ? "C03.bounce-omits-recipient" : "C14.bounce-omits-recipient", "bounce/" + std::to_string(n) + " is removed after a bounce was queued, but that bounce does not name recipient " + printable(r.addr) + " with its failure text \"" + printable(r.fail_text, 80) + "\""); break; }
         for (auto &r : m->rc) if (r.noted) { r.noted = false; r.named = false; r.bounced = true; }
         if (discard) k->probe("triple_bounce_discarded");
       } else if ((dir == "local" || dir == "remote") && m && !in_todo && m->phase == GMsg::PREPROCESSED) {
